@@ -26,6 +26,7 @@ CfgTopics(ds) == UNION { { [nv |-> d + 2, inl |-> i, tmo |-> {}, gthr |-> 2, vth
                               signed |-> TRUE, subs |-> Subs, relay |-> FALSE] : i \in {{}, 1..(d + 2)} } : d \in ds }
 CfgTopics01 == CfgTopics({0, 1})
 CfgTopics1  == CfgTopics({1})
+CfgBugAB == CfgBugA \cup CfgOne(2, {}, 2)
 CfgBugL == Fits(Layouts({0}, {1}, {FALSE}, {Subs}, {FALSE}))
 
 \* monitors that no invariant needs beyond what the visible state already fixes are hidden
